@@ -71,3 +71,18 @@ func regressC07(t *testing.T, c *ev.Collector) {
 	c.LabelN("regress_inputs", int64(len(inputs)+32))
 	c.FailIfViolations(t)
 }
+
+// regressC08: inputs that once crashed or wedged a packet decoder ("decoder hex" pairs).
+func regressC08(t *testing.T, c *ev.Collector) {
+	names, inputs := regressInputs("C08")
+	for i, in := range inputs {
+		for _, tg := range pktTargets {
+			if tg.name == names[i] {
+				c.Eval()
+				decodeTotal(c, nil, tg, in, []string{"regress"}, true)
+			}
+		}
+	}
+	c.LabelN("regress_inputs", int64(len(inputs)))
+	c.FailIfViolations(t)
+}
